@@ -10,5 +10,7 @@ macro_rules! cfg {
 fn main() {
     let mut run = Run::from_args("C11", "c11");
     vcore::core_configs!(cfg, &mut run);
+    // the widest configurations of the quantifier (8192 bits), small plan
+    vcore::huge_configs!(cfg, &mut run);
     std::process::exit(run.finish());
 }
